@@ -268,11 +268,36 @@ def int_constants(E, nt):
 
 
 def collect_int_cmps(node, vals):
+    """integer literals a value is tested against: `x == 3`, `matches!(x, 3 | 0x10)`, `[3, 0x10].contains(&x)`,
+    literal (or-)patterns of match arms"""
+    def lits(n, out):
+        if isinstance(n, dict):
+            if n.get("k") == "lit" and (n.get("ty") == "int" or (isinstance(n.get("e"), dict) and n["e"].get("ty") == "int")):
+                v = n.get("v") if n.get("ty") == "int" else n["e"].get("v")
+                if isinstance(v, int):
+                    out.add(v)
+            for v in n.values():
+                lits(v, out)
+        elif isinstance(n, list):
+            for v in n:
+                lits(v, out)
     if isinstance(node, dict):
         if node.get("k") == "bin" and node.get("op") in ("==", "!="):
             for side in (node["l"], node["r"]):
                 if side.get("k") == "lit" and side.get("ty") == "int" and isinstance(side.get("v"), int):
                     vals.add(side["v"])
+        if node.get("k") == "macro" and node.get("name") == "matches":
+            if node.get("args") and len(node["args"]) >= 2:
+                lits(node["args"][1], vals)
+            else:
+                import re as _re
+                for tok in _re.findall(r"0x[0-9a-fA-F]+|\b\d+\b", (node.get("tokens") or "").split(",", 1)[-1]):
+                    vals.add(int(tok, 0))
+        if node.get("k") == "mcall" and node.get("m") == "contains" and isinstance(node.get("recv"), dict) and node["recv"].get("k") in ("array", "ref", "paren"):
+            lits(node["recv"], vals)
+        if node.get("k") == "match":
+            for arm in node.get("arms") or []:
+                lits(arm.get("pat"), vals)
         for v in node.values():
             collect_int_cmps(v, vals)
     elif isinstance(node, list):
